@@ -21,8 +21,9 @@ CLAIMED = {
  "C05": ("proof", "4.C05", "All 12 byte-interval lookups, all section/module/IR block lookups (MUST<=result<=MAY, no repeats), the filter "
          "arithmetic of util.py, the lazy tree (all three branches of get) and index maintenance at attribute writes and owning-set "
          "mutators are proved for all inputs and states."),
- "C06": ("proof", "4.C05", "byte_intervals_on/at at section/module/IR scope proved equal to a scan; index maintenance as for C05. "
-         "sections_on/at and Section.address/size are covered by the bounded stand-in (not yet under contract)."),
+ "C06": ("proof", "4.C05", "byte_intervals_on/at at section/module/IR scope proved equal to a scan; Section.address / Section.size proved "
+         "(None unless the section has intervals and all are addressed, else lowest address / highest end minus lowest address; uses "
+         "one assumed finite-cardinality lemma) and Module/IR.sections_on/at proved against that extent; index maintenance as for C05."),
  "C10": ("proof", "4.C10", "Module._index_add/_index_discard, symbols_named, Block.references, name/payload writes through the real "
          "descriptor __set__, and symbol add/discard/move through Module._NodeSet are proved to keep both indexes equal to a scan."),
  "C13": ("proof", "4.C13", "ByteInterval.symbolic_expressions_at/_at_offset are proved to yield exactly one (interval, offset, expression) "
